@@ -31,7 +31,7 @@ Layout(j) == [comps |-> j.comps, has |-> j.has, resets |-> j.resets, plain |-> j
               teleAuto |-> j.teleAuto, modes |-> ToSet(j.modes), defmode |-> j.defmode, period |-> j.period]
 
 TInit == /\ tid \in 1..Len(Batch) /\ l = 1 /\ verdict = "" /\ vkind = "" /\ vnew = FALSE /\ seen = {}
-         /\ adopted = 0 /\ lastSw = FALSE /\ mon = [lastM |-> "", prevEnabled |-> FALSE, afterWake |-> FALSE, bad |-> ""]
+         /\ adopted = 0 /\ lastSw = FALSE /\ mon = [lastM |-> "", prevEnabled |-> FALSE, afterWake |-> FALSE, bad |-> "", fbc |-> <<>>]
          /\ Init(Layout(Batch[tid].shape), Batch[tid].fms)
 
 J(v) == ToJson(v)
@@ -85,16 +85,20 @@ Adopt(ev, d) ==      \* take over observed data so that later clauses are still 
 (* ---- monitors: predicates over the recorded events only (no specification state), so that they keep
         judging a trace after its lock-step comparison ended with a FOREIGN verdict ---- *)
 \* C10: the first callback after an enabled-mode iteration finds every will_reset_to attribute at its default
+\* C11: between two waits every feedback getter is called exactly once (fbc: keys called since the last wake)
 MonStep(ev) ==
     CASE ev.e = "cb" ->
             [lastM |-> ev.m, prevEnabled |-> mon.prevEnabled, afterWake |-> FALSE,
+             fbc |-> IF ev.k = "feedback" THEN Append(mon.fbc, ev.key) ELSE mon.fbc,
              bad |-> IF mon.afterWake /\ mon.prevEnabled
                         /\ \E c \in CompSet : \E a \in DOMAIN sh.resets[c] : ev.vals[c][a] # sh.resets[c][a]
                      THEN "mon:reset_attribute_survived_iteration" ELSE ""]
-      [] ev.e = "wait" -> [mon EXCEPT !.prevEnabled = (mon.lastM \in {"auto", "teleop"}), !.bad = ""]
+      [] ev.e = "wait" -> [mon EXCEPT !.prevEnabled = (mon.lastM \in {"auto", "teleop"}), !.fbc = <<>>,
+                                      !.bad = IF \E k \in FbKeys : Cardinality({i \in 1..Len(mon.fbc) : mon.fbc[i] = k}) # 1
+                                              THEN "mon:getter_not_called_exactly_once" ELSE ""]
       [] ev.e = "wake" -> [mon EXCEPT !.afterWake = TRUE, !.bad = ""]
       [] OTHER -> [mon EXCEPT !.bad = ""]
-MonOwner(m) == {"C10"}
+MonOwner(m) == IF m = "mon:getter_not_called_exactly_once" THEN {"C11"} ELSE {"C10"}
 MonMismatch(ev, m1) ==
     Verdict("MISMATCH", [v |-> "MISMATCH", tid |-> T.id, l |-> l, clauses |-> {m1.bad}, br |-> <<pc, mode>>,
                          exp |-> [defaults |-> sh.resets], obs |-> ev])
